@@ -4,10 +4,11 @@
 (*                                                                         *)
 (* Units: a weight w is the integer 10000*w ("ten-thousandths"), so that   *)
 (* the thousandth-truncation the loader performs (int(w*1000)) is visible  *)
-(* in the model.  Stage progress is counted in quarters (0..4 == 0..1.0).  *)
-(* Total progress is therefore in units of 1/40000.                        *)
+(* in the model.  Stage progress is the fraction finished/size of the      *)
+(* stage's components; sizes are 3 or 4, so it is counted in twelfths      *)
+(* (Den).  Total progress is therefore in units of 1/(Den*Unit) = 1/120000.*)
 (*                                                                         *)
-(* The module has two parts:                                               *)
+(* The module has three parts:                                             *)
 (*  - Normalise: what a loader has to do with the weights a package gives  *)
 (*    (FlowIR.inject_default_values).  `given[i]` is a number, "missing"   *)
 (*    or "malformed".                                                      *)
@@ -15,6 +16,13 @@
 (*    stages become active in order, an earlier stage may stay "in         *)
 (*    transit" while a later one is active, component completions advance  *)
 (*    the active stages, finished stages count with their full weight.     *)
+(*  - loops: a stage may host a DoWhile loop (iters[i] > 0).  Its          *)
+(*    components are two plain ones plus one looped component per          *)
+(*    iteration instantiated so far (Iterate adds one).  The loop's        *)
+(*    PLACEHOLDER (the name consumers of the loop refer to) is not a       *)
+(*    component: it never runs, it is not "done" on a normal run           *)
+(*    (PlaceholderDone) and it has no say in whether the stage is in       *)
+(*    transit or finished (InTransit / Finished).                          *)
 (***************************************************************************)
 EXTENDS Integers, Sequences, FiniteSets, TLC, Json
 
@@ -23,11 +31,15 @@ CONSTANTS MinStages, MaxStages,   \* number of stages explored: MinStages..MaxSt
           GridNeg,        \* set of naturals whose negations are also given (a cfg file cannot hold -1)
           UseSpecial,     \* TRUE: a weight may also be missing or malformed
           Restarts,       \* TRUE: the experiment may be (re)started from any stage: the earlier stages count as finished
+          LoopStages,     \* the stages that may host a DoWhile loop: exactly one of LoopStages \cap 1..n does (none when that is empty)
+          MaxIter,        \* the loop unrolls up to MaxIter iterations
           Emit            \* TRUE: print every (given, weights) case as JSON for the conformance driver
 
 Grid == GridPos \cup {-x : x \in GridNeg}
 
 Unit == 10000
+Den == 12              \* stage progress in twelfths: a plain stage has 4 components, a stage hosting a loop 2 + (1 or 2 iterations)
+ASSUME MaxIter \in 0..2 /\ (LoopStages = {} \/ MaxIter >= 1)
 Missing == 999991      \* TLC cannot mix strings and integers in one set: two integer codes
 Malformed == 999992
 Special == {Missing, Malformed}
@@ -38,10 +50,11 @@ VARIABLES n,        \* number of stages
           w,        \* [1..n -> Int]  normalised weights (only meaningful when loaded)
           loaded,
           st,       \* [1..n -> {"pending","active","transit","finished"}]
-          prog,     \* [1..n -> 0..4] completed quarter of the stage's components
+          iters,    \* [1..n -> 0..MaxIter]  0: a plain stage; k > 0: the stage hosts a loop, k iterations are instantiated
+          prog,     \* [1..n -> 0..Size(i)] how many of the stage's components have finished
           mon,      \* the status monitor's CheckStatus in progress: [pc, cur, T, F, s0, a]
-          reported  \* the total progress CheckStatus last wrote to the status file, in 1/(4*Unit); -1 before the first
-vars == <<n, start, given, w, loaded, st, prog, mon, reported>>
+          reported  \* the total progress CheckStatus last wrote to the status file, in 1/(Den*Unit); -1 before the first
+vars == <<n, start, given, w, loaded, st, iters, prog, mon, reported>>
 
 RECURSIVE SumTo(_, _)
 SumTo(f, k) == IF k = 0 THEN 0 ELSE f[k] + SumTo(f, k - 1)
@@ -68,6 +81,12 @@ Normalise(g, k) == IF Usable(g, k) THEN [i \in 1..k |-> Num(g[i])] ELSE Fallback
 (* deviation so that TLC can show on which inputs it differs from Normalise (see DeviationIsHarmless).   *)
 TruncAccepts(g, k) == Sum([i \in 1..k |-> Trunc(Num(g[i]))], k) = 1000
 
+(* the components of a stage: 4 plain ones, or - in the stage hosting the loop - 2 plain ones and one per iteration *)
+Size(i) == IF iters[i] = 0 THEN 4 ELSE 2 + iters[i]
+(* The placeholder of the loop hosted in stage i is marked done only when a restart skips the stage (Controller.initialise); *)
+(* no action of a normal run (Advance / Iterate / NextStage / Finish) changes that.  Documentation: nothing below reads it.     *)
+PlaceholderDone(i) == iters[i] > 0 /\ i < start
+
 (* CheckStatus of the status monitor runs concurrently with the controller.  It reads the current stage (MonBegin),  *)
 (* then - under the controller's lock, i.e. atomically - the stages in transit and the finished stages (MonSnap),     *)
 (* then the progress of the current stage and of every stage in transit, and writes the weighted sum (MonSum).        *)
@@ -80,6 +99,9 @@ Init == /\ n \in MinStages..MaxStages
         /\ w = [i \in 1..n |-> 0]
         /\ loaded = FALSE
         /\ st = [i \in 1..n |-> "pending"]
+        /\ iters \in {f \in [1..n -> 0..1] :                                    \* a loop starts with its first iteration
+                         /\ \A i \in 1..n : f[i] > 0 => i \in LoopStages
+                         /\ Cardinality({i \in 1..n : f[i] > 0}) = (IF LoopStages \cap 1..n = {} THEN 0 ELSE 1)}
         /\ prog = [i \in 1..n |-> 0]
         /\ mon = MonIdle
         /\ reported = -1
@@ -92,63 +114,86 @@ Load == /\ ~loaded /\ ~Rejected(given, n)
         /\ loaded' = TRUE
         /\ w' = Normalise(given, n)
         /\ st' = [i \in 1..n |-> IF i < start THEN "finished" ELSE IF i = start THEN "active" ELSE "pending"]   \* Controller.initialise
-        /\ UNCHANGED <<n, start, given, prog, mon, reported>>
+        /\ prog' = [i \in 1..n |-> IF i < start THEN Size(i) ELSE 0]          \* ... which marks every component of the skipped stages as finished
+        /\ UNCHANGED <<n, start, given, iters, mon, reported>>
 
-(* a component of an active / in-transit stage finishes *)
-Advance(i) == /\ i <= n /\ loaded /\ MonQuiet /\ st[i] \in {"active", "transit"} /\ prog[i] < 4
+(* a component of an active / in-transit stage finishes (a looped one finishes like any other) *)
+Advance(i) == /\ i <= n /\ loaded /\ MonQuiet /\ st[i] \in {"active", "transit"} /\ prog[i] < Size(i)
               /\ prog' = [prog EXCEPT ![i] = @ + 1]
               /\ mon' = Note(<<"Advance", i>>)
-              /\ UNCHANGED <<n, start, given, w, loaded, st, reported>>
+              /\ UNCHANGED <<n, start, given, w, loaded, st, iters, reported>>
 
-(* the controller moves on to stage i+1; stage i either is finished or stays in transit *)
+(* the loop hosted in stage i unrolls once more: the component(s) of every iteration so far have finished and the condition  *)
+(* held; the stage gets one more component, so its progress fraction drops.  Bound of the model: no iteration is instantiated *)
+(* while a CheckStatus is in progress.                                                                                        *)
+Iterate(i) == /\ i <= n /\ loaded /\ mon.pc = "idle" /\ st[i] \in {"active", "transit"}
+              /\ iters[i] > 0 /\ iters[i] < MaxIter /\ prog[i] >= iters[i]
+              /\ iters' = [iters EXCEPT ![i] = @ + 1]
+              /\ UNCHANGED <<n, start, given, w, loaded, st, prog, mon, reported>>
+
+(* the controller moves on to stage i+1; stage i either is finished (whatever was left of it has completed) or stays in transit *)
 NextStage(i, how) == /\ i <= n /\ loaded /\ MonQuiet /\ st[i] = "active" /\ i < n /\ st[i + 1] = "pending"
                      /\ how \in {"finished", "transit"}
                      /\ st' = [st EXCEPT ![i] = how, ![i + 1] = "active"]
+                     /\ prog' = IF how = "finished" THEN [prog EXCEPT ![i] = Size(i)] ELSE prog
                      /\ mon' = Note(<<"NextStage" \o how, i>>)
-                     /\ UNCHANGED <<n, start, given, w, loaded, prog, reported>>
+                     /\ UNCHANGED <<n, start, given, w, loaded, iters, reported>>
 
 Finish(i) == /\ i <= n /\ loaded /\ MonQuiet
              /\ \/ st[i] = "transit"
                 \/ st[i] = "active" /\ i = n
              /\ st' = [st EXCEPT ![i] = "finished"]
+             /\ prog' = [prog EXCEPT ![i] = Size(i)]
              /\ mon' = Note(<<"Finish", i>>)
-             /\ UNCHANGED <<n, start, given, w, loaded, prog, reported>>
+             /\ UNCHANGED <<n, start, given, w, loaded, iters, reported>>
 
 Current == IF \E i \in 1..n : st[i] = "active" THEN CHOOSE i \in 1..n : st[i] = "active" ELSE n
-Quarter(i) == IF st[i] = "finished" THEN 4 ELSE prog[i]          \* Controller.get_stage_status: finished components / all
+(* Controller.get_stage_status: finished components / all components of the stage, in twelfths *)
+Frac(i) == (Den \div Size(i)) * prog[i]
+
+(* What the monitor has to be told, stated on the stages themselves and not on how the controller keeps its books:         *)
+(*  - a stage is FINISHED iff every one of its components has finished and the controller is past it (or it is the last     *)
+(*    stage and has completed): st[i] = "finished" (Finish / NextStage("finished") complete whatever is left of the stage);   *)
+(*  - a stage is IN TRANSIT iff it has been started and is not finished.  (The model keeps the last Advance of a stage the    *)
+(*    controller has left and the controller noticing it - Finish - apart: in between the stage is in transit with fraction  *)
+(*    1, which contributes exactly what a finished stage does.)                                                                *)
+(* A stage is never both, and the placeholder of a loop is not a component: a stage hosting a loop is finished as soon as    *)
+(* its plain components and the components of all its iterations are, whether or not the placeholder was ever marked done.  *)
+Finished  == {i \in 1..n : st[i] = "finished"}
+InTransit == {i \in 1..n : st[i] \in {"active", "transit"}}
 
 MonBegin == /\ loaded /\ mon.pc = "idle"
-            /\ mon' = [pc |-> "begun", cur |-> Current, T |-> {}, F |-> {}, s0 |-> <<st, prog>>, a |-> <<"none", 0>>]
-            /\ UNCHANGED <<n, start, given, w, loaded, st, prog, reported>>
+            /\ mon' = [pc |-> "begun", cur |-> Current, T |-> {}, F |-> {}, s0 |-> <<st, prog, iters>>, a |-> <<"none", 0>>]
+            /\ UNCHANGED <<n, start, given, w, loaded, st, iters, prog, reported>>
 MonSnap ==  /\ mon.pc = "begun"
-            /\ mon' = [mon EXCEPT !.pc = "snapped",
-                                   !.T = {i \in 1..n : st[i] \in {"active", "transit"}} \ {mon.cur},
-                                   !.F = {i \in 1..n : st[i] = "finished"} \ {mon.cur}]
-            /\ UNCHANGED <<n, start, given, w, loaded, st, prog, reported>>
+            /\ mon' = [mon EXCEPT !.pc = "snapped", !.T = InTransit \ {mon.cur}, !.F = Finished \ {mon.cur}]
+            /\ UNCHANGED <<n, start, given, w, loaded, st, iters, prog, reported>>
 MonSum ==   /\ mon.pc = "snapped"
-            /\ reported' = Sum([i \in 1..n |-> IF i = mon.cur \/ i \in mon.T THEN Quarter(i) * w[i]
-                                                ELSE IF i \in mon.F THEN 4 * w[i] ELSE 0], n)
+            /\ reported' = Sum([i \in 1..n |-> IF i = mon.cur \/ i \in mon.T THEN Frac(i) * w[i]
+                                                ELSE IF i \in mon.F THEN Den * w[i] ELSE 0], n)
             /\ mon' = [mon EXCEPT !.pc = "idle"]
-            /\ UNCHANGED <<n, start, given, w, loaded, st, prog>>
+            /\ UNCHANGED <<n, start, given, w, loaded, st, iters, prog>>
 
 Next == \/ Load
         \/ MonBegin \/ MonSnap \/ MonSum
         \/ \E i \in 1..MaxStages : Advance(i)          \* constant bounds: TLC then reports coverage per action
+        \/ \E i \in 1..MaxStages : Iterate(i)
         \/ \E i \in 1..MaxStages : Finish(i)
         \/ \E i \in 1..MaxStages, h \in {"finished", "transit"} : NextStage(i, h)
 
 (* the controller alone (no CheckStatus in progress): used to enumerate the states the progress formula is checked on *)
 NextNoMon == \/ Load
              \/ \E i \in 1..MaxStages : Advance(i)
+             \/ \E i \in 1..MaxStages : Iterate(i)
              \/ \E i \in 1..MaxStages : Finish(i)
              \/ \E i \in 1..MaxStages, h \in {"finished", "transit"} : NextStage(i, h)
 
 SpecNoMon == Init /\ [][NextNoMon]_vars
 Spec == Init /\ [][Next]_vars
 
-(* total progress as CheckStatus computes it, in 1/(4*Unit) *)
-Contribution(i) == CASE st[i] = "finished" -> 4 * w[i]
-                     [] st[i] \in {"active", "transit"} -> prog[i] * w[i]
+(* total progress as CheckStatus computes it, in 1/(Den*Unit) *)
+Contribution(i) == CASE i \in Finished -> Den * w[i]
+                     [] i \in InTransit -> Frac(i) * w[i]
                      [] OTHER -> 0
 Total == Sum([i \in 1..n |-> Contribution(i)], n)
 
@@ -157,14 +202,24 @@ Total == Sum([i \in 1..n |-> Contribution(i)], n)
 WeightsNonNegative == loaded => \A i \in 1..n : w[i] >= 0
 WeightsSumToOne    == loaded => Sum(w, n) = Unit
 GivenPreserved     == (loaded /\ Usable(given, n)) => \A i \in 1..n : w[i] = Num(given[i])
-TotalInRange       == loaded => (0 <= Total /\ Total <= 4 * Unit)
-ReportedInRange    == reported = -1 \/ (0 <= reported /\ reported <= 4 * Unit)
-TotalCompleteAtEnd == (loaded /\ \A i \in 1..n : st[i] = "finished") => Total = 4 * Unit
+TotalInRange       == loaded => (0 <= Total /\ Total <= Den * Unit)
+ReportedInRange    == reported = -1 \/ (0 <= reported /\ reported <= Den * Unit)
+TotalCompleteAtEnd == (loaded /\ \A i \in 1..n : st[i] = "finished") => Total = Den * Unit
+NeverBoth          == Finished \cap InTransit = {}
+FinishedIsComplete == loaded => \A i \in Finished : prog[i] = Size(i)
 TypeOK == /\ n \in 1..MaxStages /\ loaded \in BOOLEAN
-          /\ \A i \in 1..n : st[i] \in {"pending", "active", "transit", "finished"} /\ prog[i] \in 0..4
+          /\ \A i \in 1..n : /\ st[i] \in {"pending", "active", "transit", "finished"}
+                             /\ iters[i] \in 0..MaxIter /\ prog[i] \in 0..Size(i)
 
-(* progress never decreases while stages only advance (action property) *)
-Monotone == [][loaded => Total' >= Total]_vars
+(* state constraint for the runs on loops: only packages whose given weights are used as they are *)
+OnlyUsable == Usable(given, n)
+(* state constraint: nothing is explored beyond the first completed CheckStatus (its record is still emitted: TLC evaluates *)
+(* the invariants on a state before it discards it)                                                                        *)
+FirstReport == reported = -1
+
+(* progress never decreases while stages only advance (action property); a new iteration of a loop legitimately lowers   *)
+(* the fraction of its stage                                                                                                *)
+Monotone == [][(loaded /\ iters' = iters) => Total' >= Total]_vars
 (* every CheckStatus reports a value between the true total when it began and the true total when it ended *)
 
 (* emission of cases for the conformance driver *)
@@ -179,8 +234,8 @@ EmitUsable == (Emit /\ ~loaded /\ Usable(given, n)) =>
 (* one record per completed CheckStatus: where it began, what the controller did meanwhile, what it reported *)
 EmitReport == (Emit /\ loaded /\ mon.pc = "idle" /\ reported # -1 /\ mon.s0 # <<>>) =>
               PrintT(ToJson([n |-> n, start |-> start, given |-> [i \in 1..n |-> given[i]], w |-> w, st0 |-> mon.s0[1], prog0 |-> mon.s0[2],
-                             act |-> mon.a[1], arg |-> mon.a[2], reported |-> reported]))
+                             iters0 |-> mon.s0[3], act |-> mon.a[1], arg |-> mon.a[2], reported |-> reported, den |-> Den]))
 EmitState == (Emit /\ loaded /\ mon.pc = "idle") =>
               PrintT(ToJson([n |-> n, start |-> start, given |-> [i \in 1..n |-> given[i]], w |-> w,
-                             st |-> st, prog |-> prog, total |-> Total]))
+                             st |-> st, prog |-> prog, iters |-> iters, total |-> Total, den |-> Den]))
 =============================================================================
